@@ -71,6 +71,34 @@ func main() {
 		}
 		return strings.Join(spawnTable[a[0]], ",")
 	})
+	var sa *staticAnalysis
+	var saErr error
+	static := func(a []string, which int) string {
+		if len(a) != 2 {
+			return "badargs"
+		}
+		if sa == nil && saErr == nil {
+			sa, saErr = loadStatic(p.repo)
+		}
+		if saErr != nil {
+			return "static-load-failed:" + saErr.Error()
+		}
+		for _, e := range entryDefs {
+			if e.unit == a[0] {
+				l, u, ok := sa.analyse(e.fn)
+				if !ok {
+					return "unrecognised:no-such-function"
+				}
+				if which == 0 {
+					return l
+				}
+				return u
+			}
+		}
+		return "badargs"
+	}
+	r.Register("locks", func(a []string) string { return static(a, 0) })
+	r.Register("unlocked", func(a []string) string { return static(a, 1) })
 	r.Register("mix", func(a []string) string {
 		if len(a) != 2 {
 			return "badargs"
@@ -89,6 +117,22 @@ func main() {
 		for _, b := range opNames[i:] {
 			r.Do("table", a, b)
 		}
+	}
+
+	// 1b. the source-derived lock structure of every entry function equals the projection of the model's templates
+	for _, e := range entryDefs {
+		if l := r.Exec("locks", []string{e.unit, e.ops}); strings.HasPrefix(l, "unrecognised") || strings.HasPrefix(l, "static-load-failed") {
+			r.Stat("static."+l, 1) // an entry function the pass cannot find / a tree it cannot load is not a verdict
+			continue
+		}
+		r.Do("locks", e.unit, e.ops)
+		r.Do("unlocked", e.unit, e.ops)
+	}
+	if sa != nil {
+		for k, n := range sa.unrec {
+			r.Stat("static.unrecognised."+k, int64(n))
+		}
+		r.Stat("static.type-errors", int64(len(sa.errors)))
 	}
 
 	// 2. mixes
